@@ -193,17 +193,38 @@ def execute(c, base):
         w.close()
 
 
+
+class scratch:
+    """Directory for the real worlds: RAM-backed when the machine has /dev/shm (commits fsync), else the check's workdir."""
+
+    def __init__(self, sub):
+        self.sub = sub
+
+    def __enter__(self):
+        import tempfile
+        self.made = None
+        if os.path.isdir("/dev/shm") and os.access("/dev/shm", os.W_OK):
+            self.made = tempfile.mkdtemp(prefix="vf-C16-", dir="/dev/shm")
+            return self.made
+        return self.sub.workdir
+
+    def __exit__(self, *a):
+        if self.made:
+            shutil.rmtree(self.made, ignore_errors=True)
+
+
 def replay_cases(sub, chunk):
     rows = []
-    for idx, c in chunk:
-        impl = execute(c, os.path.join(sub.workdir, "t%d" % idx))
-        # binding sanity: the materialised world is the case's pre-state
-        o = impl[0]
-        if (o["tip"], o["revno"], o["wtp"], o["tags"]) != (c["tip"], c["revno"], c["wtp"],
-                                                             sorted(c["tags"], key=lambda t: t["name"])):
-            sub.machinery("could not materialise case %s: observed %s" % (c, o))
-        rows.append({"c": c, "impl": impl})
-        sub.count(1)
+    with scratch(sub) as root:
+        for idx, c in chunk:
+            impl = execute(c, os.path.join(root, "t%d" % idx))
+            # binding sanity: the materialised world is the case's pre-state
+            o = impl[0]
+            if (o["tip"], o["revno"], o["wtp"], o["tags"]) != (c["tip"], c["revno"], c["wtp"],
+                                                                 sorted(c["tags"], key=lambda t: t["name"])):
+                sub.machinery("could not materialise case %s: observed %s" % (c, o))
+            rows.append({"c": c, "impl": impl})
+            sub.count(1)
     sub.cov.setdefault("_collect", []).extend(rows)
 
 
